@@ -596,6 +596,11 @@ type wireClient struct {
 }
 
 func dialWire(addr string, srv discover.NodeID, rng *rand.Rand, answerPings bool) (*wireClient, error) {
+	return dialWireD(addr, srv, rng, answerPings, 30*time.Second)
+}
+
+// d: how long the encryption handshake may take
+func dialWireD(addr string, srv discover.NodeID, rng *rand.Rand, answerPings bool, d time.Duration) (*wireClient, error) {
 	key, err := ecdsa.GenerateKey(crypto.S256(), rng)
 	if err != nil {
 		return nil, err
@@ -605,7 +610,7 @@ func dialWire(addr string, srv discover.NodeID, rng *rand.Rand, answerPings bool
 		return nil, err
 	}
 	c := &wireClient{fd: fd, key: key, id: discover.PubkeyID(&key.PublicKey), in: make(chan wireMsg, 8192)}
-	fd.SetDeadline(time.Now().Add(30 * time.Second))
+	fd.SetDeadline(time.Now().Add(d))
 	c.rw, err = p2p.VerifInitiatorHandshake(fd, key, srv)
 	if err != nil {
 		fd.Close()
